@@ -252,8 +252,9 @@ func TestPushHeader(t *testing.T) {
 			return c
 		},
 		Check:    checkHeader,
-		EnumDesc: "every push form x declared length on a boundary (direct 1/2/74/75; PUSHDATA1 0..255 boundaries; PUSHDATA2 up to 65535; PUSHDATA4 up to 65537 and 2^24, 2^31-1, 2^31, 2^31+1, ffff0000, fffffffe, ffffffff) x bytes present (0, 1, declared-1, declared, declared+1; for declarations above 65537: 0, 1, 3, 4, 5, 300, 65536) x {alone, after OP_DUP, inside OP_IF} x {nothing, OP_CHECKSIG after}; every header cut short",
+		EnumDesc: "grid: push opcodes 01/02/4b/4c/4d/4e x declared lengths at the edges of each width (0, 1, 0x4b/0x4c, 0x7f/0x80, 0xfe/0xff, 0x100, 0x208/0x209, 0x7fff/0x8000, 0xffff-k k<=14, 0x10000, 0x7ffffffe..0x80000001, 0xffffffff-k k<=20) x bytes really present (0, 1, 3, L-1, L, L+1; the three complete ones for L > 600 only after 0 and 9 preceding instructions) x length fields cut short x 0/1/2/5/9 preceding OP_NOPs; and every push form x declared length on a boundary (direct 1/2/74/75; PUSHDATA1 0..255 boundaries; PUSHDATA2 up to 65535; PUSHDATA4 up to 65537 and 2^24, 2^31-1, 2^31, 2^31+1, ffff0000, fffffffe, ffffffff) x bytes present (0, 1, declared-1, declared, declared+1; for declarations above 65537: 0, 1, 3, 4, 5, 300, 65536) x {alone, after OP_DUP, inside OP_IF} x {nothing, OP_CHECKSIG after}; every header cut short",
 		Enum: func(tier string, yield func(Header)) {
+			headerGrid(yield)
 			pres := []pbt.Hex{nil, {0x76}, {0x63}}
 			posts := []pbt.Hex{nil, {0xac}}
 			for _, form := range []int{-1, 1, 2, 4} {
@@ -277,4 +278,52 @@ func TestPushHeader(t *testing.T) {
 			}
 		},
 	})
+}
+
+// headerGrid is the complete grid the seeding rounds asked for (same axes as the push
+// header grid of C07): the position of the header (0/1/2/5/9 preceding one-byte
+// instructions) matters because "offset + declared length" wraps in 32-bit arithmetic
+// exactly when the declared PUSHDATA4 length is within offset of 2^32.
+func headerGrid(yield func(Header)) {
+	for _, pre := range []int{0, 1, 2, 5, 9} {
+		head := make(pbt.Hex, pre)
+		for i := range head {
+			head[i] = 0x61
+		}
+		emit := func(form int, l uint32) {
+			avail := []int{0, 1, 3}
+			if l <= 600 || (l <= 0x10000 && (pre == 0 || pre == 9)) {
+				avail = append(avail, int(l), int(l)+1)
+				if l > 0 {
+					avail = append(avail, int(l)-1)
+				}
+			}
+			for _, a := range avail {
+				yield(Header{Pre: head, Form: form, Declared: l, Avail: a, Fill: 0x51})
+			}
+			for k := 1; k < len((Header{Form: form}).header()); k++ {
+				yield(Header{Pre: head, Form: form, Declared: l, HeaderLen: k})
+			}
+		}
+		for _, l := range []uint32{0x01, 0x02, 0x4b} {
+			emit(-1, l)
+		}
+		for _, l := range []uint32{0, 1, 0x4b, 0x4c, 0x7f, 0x80, 0xfe, 0xff} {
+			emit(1, l)
+		}
+		l16 := []uint32{0, 1, 0xff, 0x100, 0x208, 0x209, 0x7fff, 0x8000}
+		for k := uint32(0); k <= 14; k++ {
+			l16 = append(l16, 0xffff-k)
+		}
+		for _, l := range l16 {
+			emit(2, l)
+		}
+		l32 := []uint32{0, 1, 0xffff, 0x10000, 0x7ffffffe, 0x7fffffff, 0x80000000, 0x80000001}
+		for k := uint32(0); k <= 20; k++ {
+			l32 = append(l32, 0xffffffff-k)
+		}
+		for _, l := range l32 {
+			emit(4, l)
+		}
+	}
 }
